@@ -360,8 +360,8 @@ def exec_gaussian_native(rep, env, rng, ncases):
 
 
 def plan(tier, seed, scale=1.0):
-    n = int((110 if tier == "quick" else 2600) * scale)
-    return [{"n": n, "timeout": 3000} for _ in range(16)]
+    n = int((400 if tier == "quick" else 12000) * scale)
+    return [{"n": n, "timeout": 6000} for _ in range(16)]
 
 
 def run_shard(shard, rep):
